@@ -77,8 +77,14 @@ def mutate(defn, faults):
     names = sorted(d["tasks"])
     for i, f in enumerate(faults):
         t = d["tasks"][names[f % len(names)]]
-        kind = (f // 7) % 3
-        if kind == 0:
+        kind = (f // 7) % 4
+        if kind == 3:
+            # several expressions of one property refer to the same unassigned variable
+            inp = t.setdefault("input", {})
+            for j in range(3):
+                inp["same%d_%d" % (i, j)] = "<%% ctx().shared%d + %d %%>" % (i, j)
+            t.setdefault("next", []).append({"publish": [{"s%d" % i: "<%% ctx().shared%d %%>" % i}, {"u%d" % i: "{{ ctx().shared%d + 1 }}" % i}]})
+        elif kind == 0:
             t.setdefault("next", []).append({"do": ["nosuch%d" % i, "missing%d" % i]})
         elif kind == 1:
             t.setdefault("input", {})["bad%d" % i] = "<%% ctx(undef%d) + ctx(zz%d) %%>" % (i, i)
